@@ -59,6 +59,9 @@ pub fn hs_to_item(h: &TlsMessageHandshake) -> Item {
             .bytes("proto", n.selected_protocol)
             .bytes("padding", n.padding),
         TlsMessageHandshake::KeyUpdate(v) => Item::new("key_update").int("v", *v as u64),
+        // a variant added to the crate later must not break the build of the checks
+        #[allow(unreachable_patterns)]
+        _ => Item::new("unknown_handshake_variant"),
     }
 }
 
@@ -81,6 +84,8 @@ fn cke_to_item(c: &TlsClientKeyExchangeContents) -> Item {
         TlsClientKeyExchangeContents::Unknown(b) => Item::new("client_key_exchange").bytes("body", b),
         TlsClientKeyExchangeContents::Dh(b) => Item::new("client_key_exchange_dh").bytes("body", b),
         TlsClientKeyExchangeContents::Ecdh(p) => Item::new("client_key_exchange_ecdh").bytes("body", p.point),
+        #[allow(unreachable_patterns)]
+        _ => Item::new("unknown_cke_variant"),
     }
 }
 
@@ -94,6 +99,8 @@ pub fn msg_to_item(m: &TlsMessage) -> Item {
             .int("hbtype", h.heartbeat_type.0 as u64)
             .int("plen", h.payload_len as u64)
             .bytes("payload", h.payload),
+        #[allow(unreachable_patterns)]
+        _ => Item::new("unknown_message_variant"),
     }
 }
 
@@ -133,6 +140,8 @@ pub fn dtls_body_to_item(b: &DTLSMessageHandshakeBody) -> Item {
             .bytes("proto", n.selected_protocol)
             .bytes("padding", n.padding),
         DTLSMessageHandshakeBody::Fragment(f) => Item::new("fragment").bytes("body", f),
+        #[allow(unreachable_patterns)]
+        _ => Item::new("unknown_dtls_body_variant"),
     }
 }
 
@@ -152,6 +161,20 @@ pub fn same(a: &Item, b: &Item) -> bool {
     canon(a) == canon(b)
 }
 
+/// `same`, with the one tolerated representation difference: RFC 5077 defines
+/// `NewSessionTicket = uint32 lifetime_hint; opaque ticket<0..2^16-1>`; the ticket value may be
+/// reported with or without its own two-byte length prefix
+pub fn equiv(expected: &Item, got: &Item) -> bool {
+    if same(expected, got) {
+        return true;
+    }
+    if expected.kind == "new_session_ticket" && got.kind == "new_session_ticket" && expected.u("hint") == got.u("hint") {
+        let full = expected.b("ticket");
+        return full.len() >= 2 && ((full[0] as usize) << 8 | full[1] as usize) == full.len() - 2 && got.b("ticket") == &full[2..];
+    }
+    false
+}
+
 pub fn diff(a: &Item, b: &Item) -> String {
     format!("expected `{}` got `{}`", clip(&canon(a).to_line()), clip(&canon(b).to_line()))
 }
@@ -168,23 +191,90 @@ fn ciphers_of(b: &[u8]) -> Vec<TlsCipherSuiteID> {
     b.chunks(2).filter(|c| c.len() == 2).map(|c| TlsCipherSuiteID(u16::from_be_bytes([c[0], c[1]]))).collect()
 }
 
-/// Build the real value an abstract message denotes; slices borrow from the Item.
-/// Returns None for kinds with no value form (rawmsg).
-pub fn build_message<'a>(m: &'a Item) -> Option<TlsMessage<'a>> {
+// The harness never writes struct literals of the crate's types (a field added to one of them is a
+// benign change and must not break the build of the checks): values come from the crate's own
+// constructors or from its own parsers applied to the reference encoding.
+
+/// a record header value, obtained from the real header parser
+pub fn mk_header(ctype: u8, ver: u16, len: u16) -> TlsRecordHeader {
+    // (parsed with a zero length and an ordinary type/version, which no header parser can object to;
+    // the requested field values are assigned afterwards)
+    let b = [22u8, 3, 3, 0, 0];
+    match parse_tls_record_header(&b) {
+        Ok((_, mut h)) => {
+            // (field assignment keeps working when fields are added)
+            h.record_type = TlsRecordType(ctype);
+            h.version = TlsVersion(ver);
+            h.len = len;
+            h
+        }
+        Err(_) => panic!("parse_tls_record_header refused 5 bytes"),
+    }
+}
+
+/// a raw record value holding `data`, whatever its length
+pub fn mk_raw_record<'a>(hdr: TlsRecordHeader, data: &'a [u8]) -> TlsRawRecord<'a> {
+    static EMPTY: [u8; 5] = [22, 3, 3, 0, 0];
+    match parse_tls_raw_record(&EMPTY) {
+        Ok((_, r)) => {
+            let mut r: TlsRawRecord<'a> = r;
+            r.hdr = hdr;
+            r.data = data;
+            r
+        }
+        Err(_) => panic!("parse_tls_raw_record refused an empty record"),
+    }
+}
+
+/// a plaintext record value holding `msgs`
+pub fn mk_plaintext<'a>(hdr: TlsRecordHeader, msgs: Vec<TlsMessage<'a>>) -> TlsPlaintext<'a> {
+    static ONE: [u8; 6] = [20, 3, 3, 0, 1, 1];
+    match parse_tls_plaintext(&ONE) {
+        Ok((_, p)) => {
+            let mut p: TlsPlaintext<'a> = p;
+            p.hdr = hdr;
+            p.msg = msgs;
+            p
+        }
+        Err(_) => panic!("parse_tls_plaintext refused a ChangeCipherSpec record"),
+    }
+}
+
+/// a DTLS record header value
+pub fn mk_dtls_header(ctype: u8, ver: u16, len: u16) -> DTLSRecordHeader {
+    let b = [22u8, 0xfe, 0xfd, 0, 0, 0, 0, 0, 0, 0, 0, 0, 0];
+    match parse_dtls_record_header(&b) {
+        Ok((_, mut h)) => {
+            h.content_type = TlsRecordType(ctype);
+            h.version = TlsVersion(ver);
+            h.length = len;
+            h
+        }
+        Err(_) => panic!("parse_dtls_record_header refused 13 bytes"),
+    }
+}
+
+/// bytes from which `build_message` derives the value of kinds that have no constructor
+pub fn build_bytes(m: &Item) -> Vec<u8> {
+    match m.kind.as_str() {
+        "client_key_exchange_dh" | "client_key_exchange_ecdh" => {
+            // ServerECDHParams (named curve + u8-length-prefixed point): parse_ecdh_params hands back an
+            // ECPoint value; Dh borrows the Item directly
+            let mut v = vec![3, 0, 23];
+            crate::enc::vec8(&mut v, &m.b("body")[..m.b("body").len().min(255)]);
+            v
+        }
+        _ => crate::enc::tls_message(m),
+    }
+}
+
+/// Build the real value an abstract message denotes. ClientHello / ServerHello go through the
+/// crate's constructors (so that values no wire encoding can produce are possible: empty or
+/// over-long session ids); every other kind is what the crate's own parser makes of the reference
+/// encoding in `bytes` (= `build_bytes(m)`), which must outlive the value.
+pub fn build_message<'a>(m: &'a Item, bytes: &'a [u8]) -> Option<TlsMessage<'a>> {
     let hs = |h| Some(TlsMessage::Handshake(h));
     match m.kind.as_str() {
-        "ccs" => Some(TlsMessage::ChangeCipherSpec),
-        "alert" => Some(TlsMessage::Alert(TlsMessageAlert {
-            severity: TlsAlertSeverity(m.u("level") as u8),
-            code: TlsAlertDescription(m.u("desc") as u8),
-        })),
-        "appdata" => Some(TlsMessage::ApplicationData(TlsMessageApplicationData { blob: m.b("blob") })),
-        "heartbeat" => Some(TlsMessage::Heartbeat(TlsMessageHeartbeat {
-            heartbeat_type: TlsHeartbeatMessageType(m.u("hbtype") as u8),
-            payload_len: m.u("plen") as u16,
-            payload: m.b("payload"),
-        })),
-        "hello_request" => hs(TlsMessageHandshake::HelloRequest),
         "client_hello" => hs(TlsMessageHandshake::ClientHello(TlsClientHelloContents::new(
             m.u("ver") as u16,
             m.b("random"),
@@ -201,54 +291,18 @@ pub fn build_message<'a>(m: &'a Item) -> Option<TlsMessage<'a>> {
             m.u("comp") as u8,
             m.ob("ext"),
         ))),
-        "server_hello_d18" => hs(TlsMessageHandshake::ServerHelloV13Draft18(TlsServerHelloV13Draft18Contents {
-            version: TlsVersion(m.u("ver") as u16),
-            random: m.b("random"),
-            cipher: TlsCipherSuiteID(m.u("cipher") as u16),
-            ext: m.ob("ext"),
-        })),
-        "new_session_ticket" => hs(TlsMessageHandshake::NewSessionTicket(TlsNewSessionTicketContent {
-            ticket_lifetime_hint: m.u("hint") as u32,
-            ticket: m.b("ticket"),
-        })),
-        "end_of_early_data" => hs(TlsMessageHandshake::EndOfEarlyData),
-        "hello_retry_request" => hs(TlsMessageHandshake::HelloRetryRequest(TlsHelloRetryRequestContents {
-            version: TlsVersion(m.u("ver") as u16),
-            cipher: TlsCipherSuiteID(m.u("cipher") as u16),
-            ext: m.ob("ext"),
-        })),
-        "certificate" => hs(TlsMessageHandshake::Certificate(TlsCertificateContents {
-            cert_chain: m.l("certs").iter().map(|c| RawCertificate { data: c }).collect(),
-        })),
-        "server_key_exchange" => {
-            hs(TlsMessageHandshake::ServerKeyExchange(TlsServerKeyExchangeContents { parameters: m.b("params") }))
-        }
-        "certificate_request" => hs(TlsMessageHandshake::CertificateRequest(TlsCertificateRequestContents {
-            cert_types: m.b("types").to_vec(),
-            sig_hash_algs: m
-                .ob("sigalgs")
-                .map(|b| b.chunks(2).filter(|c| c.len() == 2).map(|c| u16::from_be_bytes([c[0], c[1]])).collect()),
-            unparsed_ca: m.l("cas").iter().map(|c| &c[..]).collect(),
-        })),
-        "server_done" => hs(TlsMessageHandshake::ServerDone(m.b("body"))),
-        "certificate_verify" => hs(TlsMessageHandshake::CertificateVerify(m.b("body"))),
-        "client_key_exchange" => {
-            hs(TlsMessageHandshake::ClientKeyExchange(TlsClientKeyExchangeContents::Unknown(m.b("body"))))
-        }
         "client_key_exchange_dh" => hs(TlsMessageHandshake::ClientKeyExchange(TlsClientKeyExchangeContents::Dh(m.b("body")))),
         "client_key_exchange_ecdh" => {
-            hs(TlsMessageHandshake::ClientKeyExchange(TlsClientKeyExchangeContents::Ecdh(ECPoint { point: m.b("body") })))
+            match parse_ecdh_params(bytes) {
+                Ok((_, p)) => hs(TlsMessageHandshake::ClientKeyExchange(TlsClientKeyExchangeContents::Ecdh(p.public))),
+                Err(_) => None,
+            }
         }
-        "finished" => hs(TlsMessageHandshake::Finished(m.b("body"))),
-        "certificate_status" => hs(TlsMessageHandshake::CertificateStatus(TlsCertificateStatusContents {
-            status_type: m.u("stype") as u8,
-            blob: m.b("blob"),
-        })),
-        "next_protocol" => hs(TlsMessageHandshake::NextProtocol(TlsNextProtocolContent {
-            selected_protocol: m.b("proto"),
-            padding: m.b("padding"),
-        })),
-        "key_update" => hs(TlsMessageHandshake::KeyUpdate(m.u("v") as u8)),
-        _ => None,
+        "ccs" => parse_tls_message_changecipherspec(bytes).ok().map(|x| x.1),
+        "alert" => parse_tls_message_alert(bytes).ok().map(|x| x.1),
+        "appdata" => parse_tls_message_applicationdata(bytes).ok().map(|x| x.1),
+        "heartbeat" => parse_tls_message_heartbeat(bytes, bytes.len().min(65535) as u16).ok().and_then(|(_, mut v)| v.pop()),
+        "rawmsg" => None,
+        _ => parse_tls_message_handshake(bytes).ok().map(|x| x.1),
     }
 }
